@@ -788,7 +788,8 @@ func c10HonestRun(r *vssRun) {
 const c10Rule = "case = (variant Pedersen|Rabin, n in 3..6 verifiers, t in 2..n, secret from edge classes) + either an all-honest run with generated deal and response delivery orders, or a history: per verifier a deal fault from {honest, share+1, one commitment altered for this verifier only, another verifier's index inside the deal, threshold out of range, threshold different from the others, another verifier's encrypted deal, ciphertext bit flip, corrupted dealer signature, signature by another key, never delivered} produced through the dealer's own encryption path, " +
 	"then n..8n steps drawn from {deliver (or re-deliver) a deal, deliver a response V_i -> party of kind genuine / corrupted signature / other session id / foreign index / out-of-range index / inverted status / validly signed Byzantine complaint / validly signed Byzantine approval, deliver a justification (the dealer reveals the honest deal, share+1, self-consistent foreign commitments, another index' deal, or a bad threshold), SetTimeout at a party}. " +
 	"After EVERY step, on every party that holds a deal: certified => at least t valid approvals or correctly justified complaints in that party's accepted history and no incorrect justification processed; documented completeness (enough approvals, nothing outstanding => certified); certified => t approved deals reconstruct the committed secret; every library call must return an error exactly when the harness model says the message is invalid for that receiver, approvals only for deals that authenticate, carry this verifier's index, a threshold in range and a share on the committed polynomial. " +
-	"non-trivial = a faulty deal was processed, a complaint, a justification, a timeout or a Byzantine response occurred (or an all-honest run with n>3 or t<n); distinct = distinct history text"
+	"non-trivial = a faulty deal was processed, a complaint, a justification, a timeout or a Byzantine response occurred (or an all-honest run with n>3 or t<n); distinct = distinct history text" +
+	" Added after the sensitivity rounds: a second, different justification per complaint; plans extended-commitments and foreign-consistent (a deal for other commitments under the main session id: invalid since fix 27); approvers of I5 are those the certifying party accepted."
 
 func TestC10_Pedersen(t *testing.T) {
 	ev := evFor("C10")
